@@ -735,6 +735,38 @@ def literal_n_case(ctx, rng, fixed=None):
         ctx.violation(kind_, f"{text}; global={case['glob']} type={typ}", case, klass=kind_)
 
 
+def cwd_entry_case(ctx, rng):
+    """What a specification means does not depend on what happens to lie in the working directory: a file or directory
+    called like the adapter sequence (GATTACA, TAG, DATA, N ...) changes nothing."""
+    from cutadapt.parser import make_adapters_from_specifications
+    import cutadapt.adapters as A
+
+    seq = rng.choice(["GATTACA", "TAG", "DATA", "N" * 0 + "ACGT", "GATC", "".join(rng.choice("ACGT") for _ in range(rng.randint(3, 10)))])
+    typ = rng.choice(["back", "front", "anywhere"])
+    sub = os.path.join(ctx.scratch, f"cwdent{rng.getrandbits(40)}")
+    os.makedirs(sub)
+    if rng.random() < 0.5:
+        open(os.path.join(sub, seq), "w").write(">x\nACGT\n")
+    else:
+        os.makedirs(os.path.join(sub, seq))
+    sp = dict(max_errors=0.1, min_overlap=3, read_wildcards=False, adapter_wildcards=True, indels=True)
+    case = dict(spec=seq, filetext=None, glob=dict(e=0.1, o=3, indels=True, aw=True, rw=False), typ=typ)
+    ctx.case(("cwd-entry", seq, typ))
+    ctx.count("specifications_named_like_an_entry_of_the_working_directory")
+    old_cwd = os.getcwd()
+    try:
+        os.chdir(sub)
+        ads = make_adapters_from_specifications([(typ, seq)], sp)
+        want = {"back": A.BackAdapter, "front": A.FrontAdapter, "anywhere": A.AnywhereAdapter}[typ]
+        if len(ads) != 1 or type(ads[0]) is not want or ads[0].sequence != seq:
+            ctx.violation("class", f"{seq!r} as {typ} with an entry of that name in the working directory: built {ads}", case, klass="cwd")
+    except Exception as e:
+        ctx.violation("rejected", f"valid specification {seq!r} as {typ} raised {type(e).__name__}: {e} (an entry called {seq} lies in the working directory)", case, klass="cwd")
+    finally:
+        os.chdir(old_cwd)
+        shutil.rmtree(sub, ignore_errors=True)
+
+
 def run_shard(ctx):
     rng = ctx.rng("c18")
     n = ctx.scale(2500, 80000)
@@ -747,6 +779,8 @@ def run_shard(ctx):
             gen_invalid(ctx, rng)
         if i % 25 == 0:
             literal_n_case(ctx, rng)
+        if i % 60 == 0:
+            cwd_entry_case(ctx, rng)
     for k in range(ctx.scale(12, 200)):
         cli_attributes_case(ctx, ctx.shard * 100000 + k)
     if ctx.shard == 0:
